@@ -27,6 +27,12 @@ claimed={
  'C13':dict(level='exploration',engine='E1-histories',technique='runtime monitoring: executed-command trace per build vs reference model with taint / no-cache / cache-disabled inputs',
    text='Histories mixing edits, grog taint, --enable-cache=false builds and no-cache targets at random graph positions: forced targets must execute, a consumed taint must not force again, and dependants of a forced target that reproduced identical outputs must be restored.',
    note='What a cache-disabled build leaves in the cache is not fixed by the statement: those follow-up decisions are may-exec.', ref='4/C13'),
+ 'C14':dict(level='exploration',engine='E1-histories',technique='runtime monitoring: executed-command trace, exit status and external marker state vs reference model across establish / cache / destroy histories',
+   text='Targets with output checks (exit-status and expected_output flavours) on external markers, timeouts, omitted outputs: histories establish the condition, let grog cache, destroy or re-create it and rebuild. A failing check must force execution despite a cached result, a still-failing check / missing output / timeout / non-zero exit must fail the build, and nothing may be cached for a failed target (identical follow-up build attempts it again).',
+   note='The checked condition is a marker file outside the declared inputs; commands that omit an output delete it, so it is truly missing afterwards.', ref='4/C14'),
+ 'C15':dict(level='exploration',engine='E1-histories',technique='runtime monitoring: differential lock-step executions (load_outputs all vs minimal) with per-command dependency-view self-checks',
+   text='The same seeded history (edits, reverts, taints, wiped workspaces, partial selections, deleted cache blobs) runs in two separate workspaces and caches; per build the exit status and executed set must agree, every command executed under minimal must have recorded dependency outputs that are present and current (also through aliases), and outputs of executed targets must equal the reference bytes.',
+   note='After an injected cache fault the executed sets may legitimately differ (a dependency with irretrievable outputs must be re-run under minimal only): from then on only exit status, views and bytes are judged.', ref='4/C15'),
 }
 na_reason='check under construction in this session: not claimed until its monitor is built and silent on the unchanged tree'
 checks=[]
